@@ -59,7 +59,7 @@ abbrev Scripts := Nat → Nat → List Op
 
 inductive Status where
   | ok | err | stop
-  deriving Repr, BEq, DecidableEq
+  deriving Repr, DecidableEq
 
 def idxOf (x : Nat) : List Entry → Option Nat
   | [] => none
